@@ -1,3 +1,127 @@
-From Clip Require Import model.OffsetPlan.
-Theorem C06_stub : True. Proof. exact I. Qed.
-Print Assumptions C06_stub.
+(* C06 -- polygon offsetting moves the boundary by delta.
+   Models: model/OffsetPlan.v (member dataflow of ExecuteInternal / DoGroupOffset / CheckReverseOrientation: which delta,
+   join, end type, fill rule every path gets), model/OffsetGeom.v (binary64 model of the per-vertex constructions, tied
+   bit for bit to DoGroupOffset by checks/C06.py), proofs/OffsetReal.v (the real-valued formulas those constructions
+   evaluate).  The theorems say that every constructed point is where the tolerance budget of the property (arc
+   tolerance + 0.1 % of |delta|, miter limit, sqrt 2) assumes it is, and that sign of delta, fill rule and reversal
+   flag follow the orientation of the path's own group.
+   NOT proved (level: partial): that the union with Positive/Negative filling of the raw offset curves is the dilated /
+   eroded region -- a global geometric fact; it is validated by checks/C06.py against the exact signed-distance
+   specification proofs/OffsetSpec.v (c06_class).
+   Known finding (offset.group-orientation.first-polygon-group-decides, see Properties_C12.v): one fill rule per call. *)
+From Coq Require Import ZArith List Bool Floats Reals.
+From Clip Require Import base.Geom base.FloatModel model.OffsetPlan model.OffsetGeom
+  proofs.OffsetReal proofs.OffsetPlanProofs proofs.OffsetGeomProofs.
+Import ListNotations.
+#[local] Set Warnings "-inexact-float".
+
+(* steps_per_360 = PI / acos(1 - arcTol/|delta|): the chord between two consecutive arc points has sagitta = arcTol *)
+Theorem C06_arc_sagitta : forall a r : R, (0 < a <= r)%R -> (r * (1 - cos (acos (1 - a / r))) = a)%R.
+Proof. exact arc_sagitta. Qed.
+Print Assumptions C06_arc_sagitta.
+
+(* the cap steps_per_360 <= |delta| PI: half step angle 1/r, sagitta at most half a unit *)
+Theorem C06_arc_cap : forall r : R, (1 <= r)%R -> (r * (1 - cos (1 / r)) <= 1 / 2)%R.
+Proof. exact arc_cap. Qed.
+Print Assumptions C06_arc_cap.
+
+(* DoRound recurrence: every emitted point is at distance |delta| of the vertex *)
+Theorem C06_round_on_circle : forall (c s delta : R) (n : vec) (i : nat),
+  (c * c + s * s = 1)%R -> is_unit n -> norm2 (rot_iter c s i (vscale delta n)) = (delta * delta)%R.
+Proof. exact round_points_on_circle. Qed.
+Print Assumptions C06_round_on_circle.
+
+(* DoMiter under the miter-limit test cos_a > 2/ML^2 - 1: within |delta| ML of the vertex *)
+Theorem C06_miter_reach : forall (nj nk : vec) (delta ML : R),
+  is_unit nj -> is_unit nk -> (0 < ML)%R -> (vdot nj nk > 2 / (ML * ML) - 1)%R ->
+  (norm2 (miter_vec nj nk delta) <= (delta * ML) * (delta * ML))%R.
+Proof. exact miter_reach. Qed.
+Print Assumptions C06_miter_reach.
+
+(* near-straight joins (cos_a > 0.999) are mitred whatever the join type: within 1.001 |delta| *)
+Theorem C06_miter_flat_reach : forall (nj nk : vec) (delta : R),
+  is_unit nj -> is_unit nk -> (vdot nj nk > 999 / 1000)%R ->
+  (norm2 (miter_vec nj nk delta) <= (delta * (1001 / 1000)) * (delta * (1001 / 1000)))%R.
+Proof. exact miter_flat_reach. Qed.
+Print Assumptions C06_miter_flat_reach.
+
+(* DoSquare: the corner points are within |delta| sqrt 2 of the vertex *)
+Theorem C06_square_reach : forall (v n x : vec) (d : R),
+  is_unit v -> is_unit n -> (0 <= vdot v n)%R -> (vdot v n < 1)%R -> vdot x v = d -> vdot x n = d ->
+  (norm2 x <= 2 * (d * d))%R.
+Proof. exact square_reach. Qed.
+Print Assumptions C06_square_reach.
+
+(* p + delta n, n the unit normal of the edge: at distance |delta| from the edge's line ... *)
+Theorem C06_offset_edge_distance : forall (a b n : vec) (t delta : R),
+  is_unit n -> vdot n (vsub b a) = 0%R ->
+  let p := vadd a (vscale t (vsub b a)) in
+  let q := vadd p (vscale delta n) in
+  (vcross (vsub b a) (vsub q a) * vcross (vsub b a) (vsub q a) = delta * delta * edge_len2 a b)%R.
+Proof. exact offset_edge_distance. Qed.
+Print Assumptions C06_offset_edge_distance.
+
+(* ... on the side the sign of delta selects (GetUnitNormal = (dy, -dx)/L: right of a->b for delta > 0) *)
+Theorem C06_offset_edge_side : forall (a b : vec) (L t delta : R),
+  (0 < L)%R -> (L * L)%R = edge_len2 a b ->
+  let n := ((vy b - vy a) / L, - (vx b - vx a) / L)%R in
+  let q := vadd (vadd a (vscale t (vsub b a))) (vscale delta n) in
+  vcross (vsub b a) (vsub q a) = (- delta * L)%R.
+Proof. exact offset_edge_side. Qed.
+Print Assumptions C06_offset_edge_side.
+
+Theorem C06_unit_normal : forall (a b : vec) (L : R),
+  (0 < L)%R -> (L * L)%R = edge_len2 a b ->
+  let n := ((vy b - vy a) / L, - (vx b - vx a) / L)%R in
+  is_unit n /\ vdot n (vsub b a) = 0%R.
+Proof. exact unit_normal_is_unit. Qed.
+Print Assumptions C06_unit_normal.
+
+(* OffsetPoint: exactly one branch is taken, the one whose condition (written without the if-cascade) holds *)
+Theorem C06_join_selection_total : forall jt tlim gd sin_a cos_a b,
+  branch_cond jt tlim gd sin_a cos_a b = true <-> select_join jt tlim gd sin_a cos_a = b.
+Proof. exact join_selection_total. Qed.
+Print Assumptions C06_join_selection_total.
+
+(* concave iff cos_a > -0.999 and sin_a * delta < 0 (and |delta| above the floating point tolerance) *)
+Theorem C06_join_concave_iff : forall jt tlim gd sin_a cos_a,
+  select_join jt tlim gd sin_a cos_a = BConcave <->
+  PrimFloat.leb (PrimFloat.abs gd) fp_tol = false /\ fgt cos_a (-0.999)%float = true /\ PrimFloat.ltb (sin_a * gd)%float 0%float = true.
+Proof. exact join_concave_iff. Qed.
+Print Assumptions C06_join_concave_iff.
+
+(* OffsetPolygon reads path[j], path[k], norms[j], norms[k] in bounds for every length *)
+Theorem C06_polygon_accesses_in_bounds : forall len : Z, (0 <= len)%Z -> forallb (in_bounds len) (polygon_accesses len) = true.
+Proof. exact polygon_accesses_in_bounds. Qed.
+Print Assumptions C06_polygon_accesses_in_bounds.
+
+(* ExecuteInternal: |delta| < 0.5 copies the input; otherwise the plan is executed; fill rule Negative and the
+   ReverseSolution argument follow CheckReverseOrientation *)
+Theorem C06_small_delta_identity : forall (rev : bool) (gs : list group) (delta : float),
+  gs <> [] ->
+  (insignificant delta = true -> x_mode (execute_plan rev gs delta) = XIdentity) /\
+  (insignificant delta = false -> x_mode (execute_plan rev gs delta) = XOffset (plan gs delta)) /\
+  x_fill_negative (execute_plan rev gs delta) = check_reverse gs /\
+  x_reverse_solution (execute_plan rev gs delta) = xorb rev (check_reverse gs).
+Proof. exact small_delta_identity. Qed.
+Print Assumptions C06_small_delta_identity.
+
+(* Every path is offset with group_delta_ = own_delta of its OWN group: delta itself for a Polygon group with a lowest
+   path, negated exactly when that group is reversed -- whatever groups precede it.
+   (Refuted for the code before offset-delta-abs-leak.patch: witness in the header of model/OffsetPlan.v.) *)
+Theorem C06_orientation_plan : forall (gs : list group) (delta : float) (e : pentry),
+  In e (plan gs delta) ->
+  exists g, nth_error gs (pe_group e) = Some g /\ pe_delta e = own_delta g delta /\
+            (g_end g = EPolygon -> g_has_lowest g = true -> pe_delta e = if g_reversed g then fneg delta else delta).
+Proof. exact orientation_plan. Qed.
+Print Assumptions C06_orientation_plan.
+
+(* When the oriented Polygon groups of a call agree on their orientation r, the clean-up union fills Negative iff r
+   and the result is reversed iff (ReverseSolution xor r): the orientation of the input is kept; groups without any
+   vertex do not take part (offset-empty-group-orientation.patch). *)
+Theorem C06_orientation_preserved : forall (rev : bool) (gs : list group) (delta : float) (r : bool),
+  (forall g, In g gs -> oriented g = true -> g_reversed g = r) ->
+  (exists g, In g gs /\ oriented g = true) ->
+  x_fill_negative (execute_plan rev gs delta) = r /\ x_reverse_solution (execute_plan rev gs delta) = xorb rev r.
+Proof. exact orientation_preserved. Qed.
+Print Assumptions C06_orientation_preserved.
